@@ -16,7 +16,7 @@ ASSUMPTIONS = ["str(float) (decimal component values in the str direction) is ou
                "split lemma of pyvc/textlex.py (10-line induction on strings, stated in the module) - its hypotheses are machine-checked",
                "the date-time-like spelling goes through TimePointParser: bounded grid plus C07's proofs"]
 LEVEL_TEXT = "Bounded grid plus proved value contracts: other."
-LEVEL_NOTE = "see DESIGN section 5/C10"
+LEVEL_NOTE = "see DESIGN.md A.4 (as built) and section 5/C10 (plan)"
 
 
 def custom(tier, seed, repo):
